@@ -42,6 +42,8 @@ func goldenList(lg int) []string {
 	return l
 }
 
+var instWallBudget = 150.0
+
 type Instance struct {
 	Harness             string
 	Args                []int64
@@ -54,6 +56,10 @@ type Instance struct {
 	Exclude             []ExcludeCond
 	OpaquePool          map[string]string
 	FormPool            map[string]int
+
+	MaxWallS       float64
+	firstFindingAt int
+	StoppedEarly   bool
 
 	in        *Interner
 	feasCache map[string]string
@@ -150,6 +156,9 @@ func (inst *Instance) Run(P *Program, solverName string, timeoutMs int, seed int
 	if inst.MaxPaths == 0 {
 		inst.MaxPaths = 20000
 	}
+	if inst.MaxWallS == 0 {
+		inst.MaxWallS = instWallBudget
+	}
 	// package initialisation is executed once per instance and snapshotted
 	{
 		x0 := &Exec{inst: inst, P: P, solver: solver, in: inst.in, globals: map[*ssa.Global]*Object{}, externs: map[string]*Object{}, writes: map[string]bool{}, funcsSeen: inst.Funcs}
@@ -168,8 +177,22 @@ func (inst *Instance) Run(P *Program, solverName string, timeoutMs int, seed int
 		work = work[:len(work)-1]
 		if inst.Paths >= inst.MaxPaths {
 			inst.Ends["bound"]++
-			inst.EndMsgs["bound: path budget exhausted"]++
+			inst.EndMsgs[fmt.Sprintf("bound: path budget (%d) exhausted with %d paths pending", inst.MaxPaths, len(work)+1)]++
 			break
+		}
+		if inst.MaxWallS > 0 && time.Since(t0).Seconds() > inst.MaxWallS {
+			inst.Ends["bound"]++
+			inst.EndMsgs[fmt.Sprintf("bound: time budget (%.0fs) exhausted after %d paths with %d pending", inst.MaxWallS, inst.Paths, len(work)+1)]++
+			break
+		}
+		if len(inst.Findings) > 0 {
+			if inst.firstFindingAt == 0 {
+				inst.firstFindingAt = inst.Paths
+			}
+			if inst.Paths > inst.firstFindingAt+40 {
+				inst.StoppedEarly = true
+				break
+			}
 		}
 		x := &Exec{inst: inst, P: P, solver: solver, in: inst.in, prefix: prefix,
 			globals: map[*ssa.Global]*Object{}, externs: map[string]*Object{}, writes: map[string]bool{},
